@@ -18,6 +18,8 @@ mod verif_kani_datetime {
     fn k1_dt_digit() {
         let b: u8 = kani::any();
         assert!(DIGIT.contains_token(b) == o_class::digit(b));
+        // bytes accepted by this table reach `from_utf8_unchecked`: they must be ASCII (unsafe precondition)
+        assert!(!DIGIT.contains_token(b) || b < 0x80, "table feeding from_utf8_unchecked admits a non-ASCII byte");
         kani::cover!(DIGIT.contains_token(b));
         kani::cover!(!DIGIT.contains_token(b));
     }
